@@ -763,6 +763,13 @@ impl<E: Effect> Executor<E> {
         }
     }
 
+    /// Re-queue a process that is blocked in a select, to retry its Select instruction.
+    pub fn wake_selecting(&mut self, id: ProcessId) {
+        if self.selecting.remove(&id) {
+            self.queue.push_back(id);
+        }
+    }
+
     /// Notify a process that was waiting for a result with the result value
     pub fn notify_result(
         &mut self,
@@ -771,6 +778,14 @@ impl<E: Effect> Executor<E> {
         result: Value,
         heap: Vec<Vec<u8>>,
     ) -> Result<(), Error> {
+        // A result that arrives after the select that awaited it has completed is no longer
+        // awaited: there is nothing to store, the awaiter is only woken.
+        let awaits = |p: &Process| p.awaiting.contains_key(&awaited);
+        if !self.get_process(awaiter).is_some_and(awaits) {
+            self.wake_selecting(awaiter);
+            return Ok(());
+        }
+
         // Inject heap data into the result value
         let injected_result = self.inject_heap_data(result, &heap)?;
 
@@ -2653,6 +2668,21 @@ impl<E: Effect> Executor<E> {
             .select_state
             .take();
         if let Some(state) = state {
+            // The process sources are no longer awaited: forget them (releasing any result
+            // stored for them), so that a later failure of one cannot fail this process.
+            let mut stored = Vec::new();
+            if let Some(process) = self.get_process_mut(pid) {
+                for source in &state.sources {
+                    if let Value::Process(target, _) = source
+                        && let Some(Some(value)) = process.awaiting.remove(target)
+                    {
+                        stored.push(value);
+                    }
+                }
+            }
+            for value in &stored {
+                self.release(value);
+            }
             for source in &state.sources {
                 self.release(source);
             }
